@@ -27,11 +27,17 @@ import os
 import socket
 import time
 
+from tools.tr import tr_network
+from tools.tr.tr_expr import Unsupported
 from tools.vlib import coqrun, repoenv
 
 IMPORTS = ("From Coq Require Import ZArith List Bool.\n"
            "From IPV8V Require Import lib.PyErr lib.Bytes model.M02_wire model.M12_network.\n"
            "Import ListNotations.\nOpen Scope Z_scope.\n")
+IMPORTS_GEN = ("From Coq Require Import ZArith List Bool.\n"
+               "From IPV8V Require Import lib.PyErr lib.Bytes model.M02_wire model.M12_network model.M12_network_rt "
+               "gen.G12_network model.M12_network_gen.\n"
+               "Import ListNotations.\nOpen Scope Z_scope.\n")
 PREAMBLE = ("Definition m0 := mkAm None None None.\n"
             "Definition S := @Some addr.\nDefinition N := @None addr.\nDefinition mk := mkAm.\n"
             "Definition AV := AddVerified.\nDefinition DA := DiscoverAddress.\nDefinition DS := DiscoverServices.\n"
@@ -1110,6 +1116,15 @@ def run(ctx):
     t0 = time.time()
     ctx.proofs()
     ctx.proofs(part="C12x")      # snapshots over the C02 `address` packer, all address families
+    # stage G: network.py / peer.py translated from the AST (fail closed), then the refinement proofs
+    gen_text = None
+    try:
+        gen_text = tr_network.write()
+        ctx.extra["generated"] = {"gen/G12_network.v": len(gen_text)}
+    except (Unsupported, Exception) as e:   # noqa
+        ctx.broke("translator tr_network aborted", e)
+    if gen_text is not None:
+        ctx.proofs(part="C12y")  # gen_refines_hand_model: the translated functions compute the hand model
     timing["proofs"] = round(time.time() - t0, 1)
     t0 = time.time()
     ctx.coverage["trusted_base"] = [
@@ -1182,6 +1197,21 @@ def run(ctx):
                                         ctype="c12_case * Z", shard=max(40, len(coq_cases) // 56), jobs=14,
                                         timeout=1500, preamble=PREAMBLE)
     timing["model_in_coq"] = round(time.time() - t0, 1)
+    # the TRANSLATED functions, evaluated on a share of the same cases (same expected hashes)
+    if gen_text is not None:
+        t0 = time.time()
+        every = 6 if ctx.quick else 10
+        sub = [i for i in range(len(coq_cases)) if i % every == 0]
+        gm, gerrs = coqrun.eval_mismatches(IMPORTS_GEN, "grun_fan_hash", "Z.eqb", [coq_cases[i] for i in sub],
+                                           os.path.join(ctx.scratch, "c12g"), ctype="c12_case * Z",
+                                           shard=max(40, len(sub) // 56), jobs=14, timeout=1500, preamble=PREAMBLE)
+        timing["generated_in_coq"] = round(time.time() - t0, 1)
+        for e in gerrs:
+            ctx.broke("evaluation of the translated functions failed", e)
+        for j in gm[:6]:
+            ctx.broke("correspondence: translated functions and implementation differ", localise(ctx, *all_cases[sub[j]]))
+        ctx.coverage["traces_validated_against_impl"] += sum(len(all_cases[sub[j]][3]) for j in range(len(sub)) if j not in set(gm))
+        ctx.extra["generated_cases"] = len(sub)
     for e in errs:
         ctx.broke("model evaluation failed", e)
     for i in mism[:6]:
